@@ -77,6 +77,12 @@ func hmacConfigs(thorough bool) []*hmacCfg {
 		c.Name += "/custom-names-tol-1s"
 		return &c
 	}
+	// sub-second and non-integral tolerances (the written value is the one the statement speaks about)
+	cusTol := func(c hmacCfg, tol time.Duration) *hmacCfg {
+		c.SigH, c.TsH, c.NonceH, c.Tol, c.Custom = "Webhook-Signature", "Webhook-Timestamp", "Webhook-Id", tol, true
+		c.Name += "/custom-names-tol-" + tol.String()
+		return &c
+	}
 	base := hmacCfg{Route: "/a", Methods: []string{"POST", "PUT"}}
 	inline, refs, mixed, adjacent := base, base, base, base
 	inline.Name, inline.Inline = "inline", []string{"k-inline-93c1"}
@@ -85,10 +91,22 @@ func hmacConfigs(thorough bool) []*hmacCfg {
 	adjacent.Name, adjacent.Refs = "adjacent", []secretVer{a1, a2, a3}
 	// pairs (2i, 2i+1) are each other's "other header-name configuration"
 	out := []*hmacCfg{def(inline), cus(inline), def(refs), cus(refs), def(mixed), cus(mixed)}
+	partner := func(c *hmacCfg) { // c with a default-names configuration that is only its "other header-name configuration"
+		p := def(inline)
+		p.Name = ""
+		out = append(out, c, p)
+	}
+	partner(cusTol(inline, 500*time.Millisecond))
+	partner(cusTol(inline, 1500*time.Millisecond))
 	if thorough {
+		for _, tol := range []time.Duration{1, time.Millisecond, 999 * time.Millisecond, 2 * time.Second} {
+			partner(cusTol(inline, tol))
+		}
+		partner(cusTol(refs, 500*time.Millisecond))
+		n0 := len(out)
 		out = append(out, def(adjacent), cus(adjacent), cus1s(inline), def(inline), cus1s(refs), def(refs))
 		// the last two pairs repeat a default-names configuration only as the partner of the 1 s one
-		out[9].Name, out[11].Name = "", ""
+		out[n0+3].Name, out[n0+5].Name = "", ""
 	}
 	return out
 }
@@ -1125,8 +1143,16 @@ func runReplay(t *testing.T, r *runner.Run, path string) {
 func TestCheck(t *testing.T) {
 	r := runner.Start("C08", "exploration")
 	deadline := r.Deadline(80*time.Second, 11*time.Minute)
+	if _, child := runner.IsShard(); child {
+		runReloadSched(t, r) // a shard child of one schedule exploration: replies and exits inside
+		r.Finish()
+	}
 	if p := runner.ReplayPath(); p != "" {
-		runReplay(t, r, p)
+		if raw, _ := os.ReadFile(p); bytes.Contains(raw, []byte(`"engine": "sched"`)) || bytes.Contains(raw, []byte(`"engine":"sched"`)) {
+			runReloadSched(t, r) // replays the recorded schedule of the matching exploration
+		} else {
+			runReplay(t, r, p)
+		}
 		r.Set("rule", "replay of one recorded case")
 		os.Setenv("VERIF_EVIDENCE", scratch+"/replay-evidence.json") // a replay must not overwrite the evidence of the full run
 		r.Finish()
@@ -1135,7 +1161,10 @@ func TestCheck(t *testing.T) {
 	runBasic(t, r)
 	runForward(t, r)
 	runCombined(t, r)
+	runTolerance(t, r)
+	runReloadSequential(t, r)
 	runHMAC(t, r, deadline)
+	runReloadSched(t, r)
 
 	r.Set("rule", "complete finite products, one real request per element through the ingress handler wired by startServers from DSL text. "+
 		"HMAC = {secret set: 1 inline | 2 overlapping secret_ref versions | inline+version (thorough: 3 adjacent versions with an open end, 1 s tolerance)} x {header names: default | custom} x "+
